@@ -204,23 +204,9 @@ Definition db_get_live (now : N) (d : db) (k : bytes) (v : N) : gres :=
   | o => o
   end.
 
-(** Txn.Get additionally treats [Value == nil && Meta == 0] as absent.  A table
-    returns an empty value as a nil slice, a memtable as an empty non-nil one.
-    Under LSM.Get's running-best scan the answering record comes from a
-    memtable iff the memtable phase found a record of the final version (later
-    sources replace the best only with a strictly greater version). *)
-Definition in_mem (s : state) (k : bytes) (v : N) : bool :=
-  match fold_left (mem_step k v) (st_mem s :: map snd (rev (st_imms s))) None, get s k v with
-  | Some b, Some r => r_ver b =? r_ver r
-  | _, _ => false
-  end.
-Definition txn_get (now : N) (d : db) (k : bytes) (ts : N) : gres :=
-  match db_get d k ts with
-  | GVal r =>
-      if (blen (r_val r) =? 0) && (r_meta r =? 0) && negb (in_mem (d_lsm d) k ts) then GNone
-      else if dead now r then GNone else GVal r
-  | o => o
-  end.
+(** Txn.Get at its read timestamp: as Get, deleted and expired entries are absent
+    (since /repo 0719305 a zero-length value with meta 0 is returned like any other value). *)
+Definition txn_get (now : N) (d : db) (k : bytes) (ts : N) : gres := db_get_live now d k ts.
 
 (** * GC: valueLog.rewrite *)
 
